@@ -27,6 +27,9 @@ def check_mean(mean: MeanType, X: np.ndarray) -> np.ndarray:
         Fixed mean for the cost calculation.
     """
     mean = np.array([mean]) if isinstance(mean, numbers.Number) else np.asarray(mean)
+    if mean.dtype.kind in "iub":
+        # Integer-typed parameters overflow when they are squared in their own dtype.
+        mean = mean.astype(np.float64)
     if len(mean) != 1 and len(mean) != X.shape[1]:
         raise ValueError(f"mean must have length 1 or X.shape[1], got {len(mean)}.")
     return mean
@@ -48,6 +51,9 @@ def check_var(var: VarType, X: np.ndarray) -> np.ndarray:
         Fixed variance for the cost calculation.
     """
     var = np.array([var]) if isinstance(var, numbers.Number) else np.asarray(var)
+    if var.dtype.kind in "iub":
+        # Integer-typed parameters are not closed under the divisions they are used in.
+        var = var.astype(np.float64)
     if len(var) != 1 and len(var) != X.shape[1]:
         raise ValueError(f"var must have length 1 or X.shape[1], got {len(var)}.")
 
